@@ -7,15 +7,15 @@ exchanged metadata (adapter start times), same final component times, same full 
 every consumer input."""
 import itertools
 
-from ..coqgen import L
+from ..coqgen import L, N, P, Z
 from .. import schedlib
 from . import sched_common as sc
 from . import c01
 
 ID = "C05"
 COQ_IMPORTS = "From FV Require Import Base Sched."
-COQ_CHECK = "c05_check"
-COQ_MODEL_OBS = "c05_model"
+COQ_CHECK = "c05_check2"
+COQ_MODEL_OBS = None
 TRUSTED = sc.TRUSTED
 RULE = (
     "compositions as for C01 without DelayToPush and with single-reader pull-based components; every composition is "
@@ -89,7 +89,11 @@ def run_impl(case):
 
 
 def coq_case(case, obs):
-    return L(sc.coq_case(_variant_case(case, v), o) for v, o in zip(case["variants"], obs["variants"]))
+    variants = L(sc.coq_case(_variant_case(case, v), o) for v, o in zip(case["variants"], obs["variants"]))
+    fuel = max([sc.fuel_for(None, o) for o in obs["variants"]] or [10])
+    base = P(L(sc.coq_comp(c) for c in case["base"]["comps"]), Z(case["base"]["end"]), N(fuel))
+    prios = L(L(N(k) for k in v["order"]) for v in case["variants"])
+    return P(base, prios, variants)
 
 
 def coq_obs(case, obs):
